@@ -1071,7 +1071,7 @@ def emit_entry_glue(c, iface_path):
     pub const PEER_INST: Option<rt::registry::InstFn> = Some(peer_inst);"""
             % (c.name, cc_snake(c.name), gen, "".join(", " + x for x in [typed_args(inst, tmap_for(inst))] if x))
         )
-    w(REMOTE_GLUE % (ST, ST, ST, ST, ST))
+    w(REMOTE_GLUE % (ST, ST, ST, ST, ST, ST))
     w(PEER_CONST)
     # ---- entry
     store_e = "Some(store)" if not c.custom_chain else "None"
@@ -1161,7 +1161,7 @@ def emit_dyn_peer(family, i, t, chain, iface_path):
     }"""
             % (suffix, qt, qt, "\n            ".join(query_arms), key)
         )
-    out.append(REMOTE_GLUE % ("TT", "TT", "TT", "TT", "TT"))
+    out.append(REMOTE_GLUE % ("TT", "TT", "TT", "TT", "TT", "TT"))
     out.append("    pub const PEER_INST: Option<rt::registry::InstFn> = None;")
     out.append(PEER_CONST)
     out.append("}")
@@ -1189,12 +1189,16 @@ REMOTE_GLUE = """    pub fn peer_admin(addr: &Addr, admin: Option<&str>) -> Wasm
     }
     pub fn peer_schema_name() -> String {
         <Remote<'static, %s> as sylvia::schemars::JsonSchema>::schema_name()
+    }
+    pub fn peer_schema_register(gen: &mut sylvia::schemars::gen::SchemaGenerator) {
+        let _ = gen.subschema_for::<Remote<'static, %s>>();
     }"""
 
 PEER_CONST = """    pub const PEER: rt::registry::PeerFns = rt::registry::PeerFns {
         exec: peer_exec, query_e: peer_query_e, query_c: peer_query_c, inst: PEER_INST,
         admin: peer_admin, save_remote: peer_save_remote, resave_remote: peer_resave_remote,
         schema_name: peer_schema_name,
+        schema_register: peer_schema_register,
     };"""
 
 
